@@ -402,7 +402,7 @@ func (t *TriDense) Copy(a Matrix) (r, c int) {
 		return 0, 0
 	}
 
-	switch a := a.(type) {
+	switch a := hideUnsupportedRaw(a).(type) {
 	case RawMatrixer:
 		amat := a.RawMatrix()
 		if t.isUpper() {
@@ -569,9 +569,9 @@ func (t *TriDense) ScaleTri(f float64, a Triangular) {
 	t.reuseAsNonZeroed(n, kind)
 
 	// TODO(btracey): Improve the set of fast-paths.
-	switch a := a.(type) {
+	switch ra := hideUnsupportedRaw(a).(type) {
 	case RawTriangular:
-		amat := a.RawTriangular()
+		amat := ra.RawTriangular()
 		if t != a {
 			t.checkOverlap(generalFromTriangular(amat))
 		}
